@@ -43,7 +43,8 @@ ERR_CLASSES = [
     (r"is over the supply limit", "htlc_supply_over_limit"),
     (r"asset is currently inactive", "htlc_asset_inactive"),
     (r"invalid minUnit: ibc/", "token_ibc_minunit"),
-    # classes of the two refusals found by the rule walk (findings/genesis.md); no known finding uses them yet
+    # classes of the refusals found by the rule walk, F37 / F38 (findings/genesis.md): repaired in /repo, no known
+    # finding uses them (they must never be maskable); kept so that a regression is reported under a readable class
     (r"the length of nft uri", "nft_uri_too_long"),
     (r"Token \S+ does not exist", "token_fee_denom_not_issued"),
 ]
